@@ -20,7 +20,8 @@ fp("dask/array/backends.py", "_numel_masked")
 # C28
 fp("dask/array/random.py", "_spawn_bitgens", "_wrap_func", "_choice_validate_params", "_apply_random_func",
    "_apply_random", "Generator.choice", "RandomState.choice", "default_rng", "Generator.permutation",
-   "RandomState.permutation", "_shuffle", "_choice_rng", "_choice_rs", "Generator.integers", "RandomState.randint")
+   "RandomState.permutation", "_shuffle", "_choice_rng", "_choice_rs", "Generator.integers", "RandomState.randint",
+   "Generator.multinomial", "Generator.multivariate_hypergeometric", "RandomState.seed")
 fp("dask/utils.py", "random_state_data")
 
 # C31
@@ -34,4 +35,5 @@ fp("dask/array/_array_expr/_expr.py", "ArrayExpr.optimize", "ArrayExpr.rechunk",
    "FinalizeComputeArray._simplify_down")
 fp("dask/array/_array_expr/_rechunk.py", "Rechunk.chunks", "Rechunk._lower", "TasksRechunk._lower")
 fp("dask/array/_array_expr/_blockwise.py", "Blockwise._lower", "Elemwise._lower")
+fp("dask/array/_array_expr/_reductions.py", "_tree_reduce", "PartialReduce.chunks", "PartialReduce._layer")
 fp("dask/_expr.py", "Expr.simplify", "Expr.simplify_once", "Expr.lower_once", "Expr.lower_completely", "optimize_until")
